@@ -382,7 +382,8 @@ func ruleUnitParserRemovals(w *core.World, r *core.Report) {
 				return
 			}
 			if fct.Val {
-				if ph, ok := cv.(*ssa.Phi); ok && ph.Block() == head && ph.Comment == "bypass" {
+				// the "current database is filtered" flag: the loop-carried boolean fed by FilterDb
+				if ph, ok := cv.(*ssa.Phi); ok && ph.Block() == head && phiFedBy(ph, isResultOf("*RedisKeyFilter).FilterDb", -1), map[*ssa.Phi]bool{}) {
 					return
 				}
 			}
@@ -422,7 +423,8 @@ func ruleTxnBuffer(w *core.World, r *core.Report) {
 	head := core.LoopHeadOf(dec.Block())
 	var buf *ssa.Phi
 	for _, in := range head.Instrs {
-		if ph, ok := in.(*ssa.Phi); ok && ph.Comment == "txnCommands" {
+		// the buffer of the open source transaction: the loop-carried slice of commands
+		if ph, ok := in.(*ssa.Phi); ok && strings.HasSuffix(ph.Type().String(), "syncer.bisyncAofCommand") && strings.HasPrefix(ph.Type().String(), "[]") {
 			buf = ph
 		}
 	}
